@@ -59,6 +59,12 @@ const SNAPSHOT_RETENTION_COUNT: usize = 3;
 /// Lock file name for crash detection
 const LOCK_FILE_NAME: &str = ".state.lock";
 
+/// File holding the per-store HMAC key
+const KEY_FILE_NAME: &str = ".state.key";
+
+/// Length of the per-store HMAC key in bytes
+const HMAC_KEY_LEN: usize = 32;
+
 /// WAL file extension
 const WAL_EXTENSION: &str = "wal";
 
@@ -67,7 +73,6 @@ const SNAPSHOT_EXTENSION: &str = "snap";
 
 /// State file permissions (owner read/write only)
 #[cfg(unix)]
-#[allow(dead_code)]
 const STATE_FILE_PERMISSIONS: u32 = 0o600;
 
 /// Transaction type for WAL entries
@@ -463,9 +468,9 @@ impl<T: Serialize + for<'de> Deserialize<'de> + Clone + PartialEq + Send + Sync 
             ))
         })?;
 
-        // Generate HMAC key
-        let mut hmac_key_bytes = vec![0u8; 32];
-        rand::thread_rng().fill_bytes(&mut hmac_key_bytes);
+        // Load the per-store HMAC key (created on first open).  The key must
+        // outlive the process: records written under it are verified on recovery.
+        let hmac_key_bytes = load_or_create_hmac_key(&config.state_dir)?;
         let hmac_key = SecureMemory::from_slice(&hmac_key_bytes)?;
 
         // Create WAL writer
@@ -1501,6 +1506,62 @@ pub struct IntegrityReport {
     pub total_entries: usize,
     /// Total state size in bytes
     pub total_size: usize,
+}
+
+/// Load the store's HMAC key from `<state_dir>/.state.key`, creating it with
+/// owner-only permissions on first use.  The file is written to a temporary
+/// name, synced and renamed, so an existing key file is always complete.
+fn load_or_create_hmac_key(state_dir: &Path) -> Result<Vec<u8>> {
+    let key_path = state_dir.join(KEY_FILE_NAME);
+
+    match std::fs::read(&key_path) {
+        Ok(bytes) if bytes.len() == HMAC_KEY_LEN => return Ok(bytes),
+        Ok(_) => {
+            return Err(P2PError::Storage(StorageError::CorruptionDetected(
+                "State HMAC key file has an unexpected length"
+                    .to_string()
+                    .into(),
+            )));
+        }
+        Err(e) if e.kind() == std::io::ErrorKind::NotFound => {}
+        Err(e) => {
+            return Err(P2PError::Storage(StorageError::Database(
+                format!("Failed to read HMAC key file: {e}").into(),
+            )));
+        }
+    }
+
+    let mut key = vec![0u8; HMAC_KEY_LEN];
+    rand::thread_rng().fill_bytes(&mut key);
+
+    let temp_path = state_dir.join(format!("{KEY_FILE_NAME}.tmp"));
+    {
+        let mut options = OpenOptions::new();
+        options.create(true).write(true).truncate(true);
+        #[cfg(unix)]
+        {
+            use std::os::unix::fs::OpenOptionsExt;
+            options.mode(STATE_FILE_PERMISSIONS);
+        }
+        let mut file = options.open(&temp_path).map_err(|e| {
+            P2PError::Storage(StorageError::Database(
+                format!("Failed to create HMAC key file: {e}").into(),
+            ))
+        })?;
+        file.write_all(&key)?;
+        file.sync_all().map_err(|e| {
+            P2PError::Storage(StorageError::Database(
+                format!("Failed to sync HMAC key file: {e}").into(),
+            ))
+        })?;
+    }
+    std::fs::rename(&temp_path, &key_path).map_err(|e| {
+        P2PError::Storage(StorageError::Database(
+            format!("Failed to install HMAC key file: {e}").into(),
+        ))
+    })?;
+
+    Ok(key)
 }
 
 /// Get current Unix timestamp
